@@ -357,6 +357,9 @@ def check_plan(ctx, plan):
                         key = "C09:Sel:file!=string"
                         if "\n".join(dedup) + "\n" == data:
                             key = "C09:Sel:duplicate_heading_in_string"
+                            first_sim = split_simulations(input_text(run["input"]))[0]
+                            if re.search(r"-selected_output\s+false", first_sim):
+                                key += ":punch_off_in_first_simulation"
                         rep.viol("file_vs_string", key, "%s: block %d file %r and string differ %s" % (where, n, name, first_diff(data, s)))
                     rep.count("sel_compared")
                     if len(s) >= 1024:
